@@ -161,7 +161,32 @@ func (w *world) stop() {
 // timed: a verdict that rests on a clock (nothing came within ...) is only reported when the same sequence, replayed
 // alone on a fresh server, ends in the same verdict again: a machine that stalls does not do so twice at the same line.
 func (w *world) timed(key, detail string) bool {
-	if !w.isolated && w.curB != nil && !w.confirmed(key) {
+	if w.isolated || w.curB == nil {
+		w.violate(key, detail)
+		return true
+	}
+	w.sh.mu.Lock()
+	state := w.sh.silent["reported:"+key]
+	if state == "" {
+		w.sh.silent["reported:"+key] = "pending"
+	}
+	w.sh.mu.Unlock()
+	switch state {
+	case "yes": // another occurrence of something that has been through the second run already
+		w.violate(key, detail)
+		return true
+	case "pending": // another worker is at it
+		return false
+	}
+	ok := w.confirmed(key)
+	w.sh.mu.Lock()
+	if ok {
+		w.sh.silent["reported:"+key] = "yes"
+	} else {
+		delete(w.sh.silent, "reported:"+key)
+	}
+	w.sh.mu.Unlock()
+	if !ok {
 		w.r.Add("clock_verdicts_not_confirmed_by_a_second_run", 1)
 		w.log = append(w.log, "(not reported, a second run on a fresh server did not show it: "+key+")")
 		return false
@@ -673,7 +698,10 @@ func (w *world) spinDetected(cur *suspect, curSig string) {
 		w.violate(kindKey(curSig, "spin-after-disconnect"), fmt.Sprintf("the server keeps using CPU time with no client talking to it (resident set %d MiB)", rss/1024))
 		return
 	}
-	w.violate("unattributed/spin-after-disconnect", fmt.Sprintf("the server kept using CPU time after the clients of these sequences had gone, but none of them does it alone on a fresh server: %v", tried))
+	// nobody does it alone on a fresh server: what was measured was not the doing of one of these clients (a loaded
+	// machine, a garbage collection after a 30 MB literal): counted, not reported
+	w.r.Add("cpu_activity_after_disconnect_not_reproduced_alone", 1)
+	w.r.Sample(map[string]interface{}{"cpu_activity_after_these_sequences_not_reproduced_alone": tried})
 }
 
 // isolate replays one suspect alone on a fresh server, closes the connection and measures.
